@@ -55,4 +55,48 @@ theorem tokenize_full (s : Str) (c : List Spec.CSegment) (hp : Spec.parseQuery s
     · cases hp
   · cases hp
 
+/-- `tokenize_full` from the segments derivation alone (serves both the `valid` and the `disputed` verdict) -/
+theorem tokenize_full_segs (r : Str) (c : List Spec.CSegment)
+    (hsegs : Spec.segments (2 * ('$' :: r : Str).length + 4) r = some (c, [])) :
+    ∃ ts k0 ke, FSegsShape c ts ∧
+      tokenize ('$' :: r) = .ok (⟨.root, ['$'], k0⟩ :: (ts ++ [⟨.eof, [], ke⟩])) := by
+  generalize hs : ('$' :: r : Str) = s at hsegs
+  have h0 : FSt 0 ({ q := s.toArray } : Lexer) [] [] ('$' :: r) [] [] :=
+    ⟨by simp [hs], rfl, rfl, rfl, rfl, rfl⟩
+  have s1 := lexRoot_exec h0
+  have h1 := h0.adv.emit .root
+  obtain ⟨lf, ts, ke, hh, hb, ht, hsh⟩ := lex_segments_top hsegs h1
+  have hrun := run_of_halts (n := s.length) (.step s1 hh) (lexFuel s.length) (Lexer.Inv.init s)
+    (by simp [pot, rank, lexFuel])
+  refine ⟨ts, 0, ke, hsh, ?_⟩
+  unfold tokenize
+  simp only [hrun, bind, Except.bind, hb, ht]
+  simp [pure, Except.pure]
+
+/-- a verdict with a derivation comes from a complete `segments` parse after `$` -/
+theorem segs_of_parseQuery {s : Str} {c : List Spec.CSegment}
+    (hp : Spec.parseQuery s = .valid c ∨ Spec.parseQuery s = .disputed c) :
+    ∃ r, s = '$' :: r ∧ Spec.segments (2 * ('$' :: r : Str).length + 4) r = some (c, []) := by
+  unfold Spec.parseQuery at hp
+  split at hp
+  · rename_i r
+    split at hp
+    · rename_i segs hsegs
+      refine ⟨r, rfl, ?_⟩
+      have hc : segs = c := by
+        simp only [] at hp
+        split at hp
+        · rcases hp with hp | hp <;> cases hp
+        · split at hp
+          · rcases hp with hp | hp
+            · cases hp
+            · simpa using hp
+          · rcases hp with hp | hp
+            · simpa using hp
+            · cases hp
+      subst hc
+      exact hsegs
+    · rcases hp with hp | hp <;> cases hp
+  · rcases hp with hp | hp <;> cases hp
+
 end JPV.Proofs.Cf
